@@ -353,10 +353,13 @@ def rand_c05(seed, tier, cases=None):
         ops = []
         for j in range(n):
             ident = rng.choice([0, 1, 2, 3, 5, 14, 15, 16, 200, 255])
-            if rng.random() < 0.3:
-                ops.append(dict(op="del", id=ident, len=0, salt=j + 1))
+            k = rng.random()
+            if k < 0.12:
+                ops.append(dict(op="setfrom", id=ident, len=0, salt=j + 1, src=rng.choice([1, 2, 3, 5, 14, 200])))
+            elif k < 0.35:
+                ops.append(dict(op="del", id=ident, len=0, salt=j + 1, src=0))
             else:
-                ops.append(dict(op="set", id=ident, len=rng.choice([0, 1, 2, 3, 4, 8, 15, 16, 17, 32, 100, 255, 256, 300, ident, rng.randint(0, 40)]), salt=j + 1))
+                ops.append(dict(op="set", id=ident, len=rng.choice([0, 1, 2, 3, 4, 8, 15, 16, 17, 32, 100, 255, 256, 300, ident, rng.randint(0, 40)]), salt=j + 1, src=0))
         st = rng.choice(starts)
         out.append(dict(fam="C05", start=st, ops=ops, depth=n, **{"class": st + "_rand"}))
     return out
